@@ -15,6 +15,8 @@ func runC15(c *Ctx) {
 	c15Siblings(c)
 	c15MetadataBeforeBody(c, "R5-sibling-writers-read-header-timestamp")
 	c15HeaderTimestamp(c)
+	c15MetadataCache(c)
+	c18TimeTravelFreeze(c, "R9-time-travel-freezes-the-index")
 	// the v0.3.x path applies the same "not after T" selection
 	v3TimestampEligibility(c)
 	// R4: T before the first backup fails: the plan must be non-empty (C08-R4 success condition)
@@ -278,4 +280,133 @@ func c15MetadataBeforeBody(c *Ctx, rule string) {
 		}
 	}
 	c.floor(rule, n, 1, "streaming writers carrying timestamp metadata")
+}
+
+// c15MetadataCache: the object stores' batch metadata fetch caches, per key, the replication
+// timestamp parsed from the object's metadata.  Only successfully parsed timestamps enter
+// the cache: a zero time cached for a key whose HEAD failed or carries no metadata is
+// "before every T" and lets a file replicated after T into a timestamp restore (a key
+// without a cache entry falls back to LastModified instead).
+func c15MetadataCache(c *Ctx) {
+	const rule = "R8-metadata-cache-holds-parsed-times"
+	var good func(v ssa.Value, site ssa.Instruction, d int) bool
+	good = func(v ssa.Value, site ssa.Instruction, d int) bool {
+		if v == nil || d > 4 {
+			return false
+		}
+		os := origins(v)
+		if len(os) == 0 {
+			return false
+		}
+		for _, o := range os {
+			ok := false
+			if ex, isE := o.(*ssa.Extract); isE {
+				switch t := ex.Tuple.(type) {
+				case *ssa.Call:
+					// parsed, err := time.Parse(...): used under err == nil
+					if calleeName(t) == "time.Parse" && ex.Index == 0 {
+						if g, k := guardedBy(site, cmpFact(vIs(resultOf(t, 1)), token.EQL, vNil(), "")); k > 0 && g {
+							ok = true
+						}
+					}
+				case *ssa.Next:
+					// the value of a range over a map all of whose entries are good
+					if rg, isR := t.Iter.(*ssa.Range); isR && ex.Index == 2 {
+						for _, m := range origins(rg.X) {
+							mm, isM := m.(*ssa.MakeMap)
+							if !isM || mm.Referrers() == nil {
+								continue
+							}
+							all, n := true, 0
+							var visit func(val ssa.Value)
+							seen := map[ssa.Value]bool{}
+							visit = func(val ssa.Value) {
+								if seen[val] || val.Referrers() == nil {
+									return
+								}
+								seen[val] = true
+								for _, r := range *val.Referrers() {
+									switch u := r.(type) {
+									case *ssa.MapUpdate:
+										if u.Map == val {
+											n++
+											if !good(u.Value, u, d+1) {
+												all = false
+											}
+										}
+									case *ssa.MakeClosure:
+										// captured by the worker goroutines: follow the free variable
+										if cl, isF := u.Fn.(*ssa.Function); isF {
+											for i, b := range u.Bindings {
+												if i < len(cl.FreeVars) {
+													if b == val {
+														visit(cl.FreeVars[i])
+													} else if al, isA := b.(*ssa.Alloc); isA {
+														for _, st := range cellStores(al) {
+															if st == val {
+																for _, fr := range *cl.FreeVars[i].Referrers() {
+																	if ld, isL := fr.(*ssa.UnOp); isL {
+																		visit(ld)
+																	}
+																}
+															}
+														}
+													}
+												}
+											}
+										}
+									case *ssa.Store:
+										// kept in a cell that closures capture
+										if al, isA := u.Addr.(*ssa.Alloc); isA && u.Val == val && al.Referrers() != nil {
+											for _, ar := range *al.Referrers() {
+												if mc, isMC := ar.(*ssa.MakeClosure); isMC {
+													if cl, isF := mc.Fn.(*ssa.Function); isF {
+														for i, b := range mc.Bindings {
+															if b == ssa.Value(al) && i < len(cl.FreeVars) && cl.FreeVars[i].Referrers() != nil {
+																for _, fr := range *cl.FreeVars[i].Referrers() {
+																	if ld, isL := fr.(*ssa.UnOp); isL {
+																		visit(ld)
+																	}
+																}
+															}
+														}
+													}
+												}
+												if ld, isL := ar.(*ssa.UnOp); isL {
+													visit(ld)
+												}
+											}
+										}
+									}
+								}
+							}
+							visit(mm)
+							if all && n > 0 {
+								ok = true
+							}
+						}
+					}
+				}
+			}
+			if !ok {
+				return false
+			}
+		}
+		return true
+	}
+	n := 0
+	for _, fn := range c.P.ProdFuncs() {
+		for _, b := range fn.Blocks {
+			for _, in := range b.Instrs {
+				mu, ok := in.(*ssa.MapUpdate)
+				if !ok || !vFieldLoad("fileIterator.metadataCache", nil)(mu.Map) {
+					continue
+				}
+				n++
+				c.check(good(mu.Value, mu, 0), rule, fnName(fn)+": metadataCache entries are timestamps parsed from object metadata", c.pos(mu), "time.Parse result under err == nil (directly or through the per-batch result map)",
+					"a timestamp that was not successfully parsed (the zero time for a failed or metadata-less HEAD) can be cached: CreatedAt is then before every requested time")
+			}
+		}
+	}
+	c.floor(rule, n, 1, "metadataCache updates in the object-store listings")
 }
